@@ -9,9 +9,6 @@ import DSymVerif.Proofs.Covers
 namespace DSymVerif.Covers
 open DSymVerif DSymVerif.DS
 
-/-- the formal inverse of a word -/
-def invWord (w : List Int) : List Int := (w.map (fun g => -g)).reverse
-
 theorem invWord_cons (g : Int) (w : List Int) : invWord (g :: w) = invWord w ++ [-g] := by
   unfold invWord
   rw [List.map_cons, List.reverse_cons]
@@ -20,9 +17,13 @@ theorem invWord_cons (g : Int) (w : List Int) : invWord (g :: w) = invWord w ++ 
 def Table.InvConsistent (t : Table) : Prop :=
   ∀ c g r, c < t.len → t.get c g = .ok (some r) → r < t.len ∧ t.get r (-g) = .ok (some c)
 
-/-- the words on the two sides of each edge are mutually inverse (missing entry = empty word) -/
-def EdgeWordsInverse (s : DSymData) (e2w : EdgeWords) : Prop :=
-  ∀ i d, i ≤ s.dim → 1 ≤ d → d ≤ s.size → wordOf e2w (s.dset.opU i d) i = invWord (wordOf e2w d i)
+/-- the words on the two sides of each edge are formal inverses of each other (missing entry =
+    empty word), or the edge is a mirror (`op_i d = d`, one word for both sides) and tracing its
+    word twice returns to every row (the table satisfies the relator `w²`) -/
+def EdgeWordsOk (s : DSymData) (t : Table) (e2w : EdgeWords) : Prop :=
+  ∀ i d, i ≤ s.dim → 1 ≤ d → d ≤ s.size →
+    wordOf e2w (s.dset.opU i d) i = invWord (wordOf e2w d i) ∨
+    (s.dset.opU i d = d ∧ ∀ k, k < t.len → t.traceWord k (wordOf e2w d i ++ wordOf e2w d i) = .ok k)
 
 namespace Table
 
@@ -123,7 +124,7 @@ theorem allTracesDefined_spec {s : DSymData} {t : Table} {e2w : EdgeWords}
 
 /-- **the sheet map of `cover_for_table` is compatible** -/
 theorem sheetMap_compat (s : DSymData) (hs : ValidSet s.dset) (t : Table) (e2w : EdgeWords)
-    (ht : t.InvConsistent) (he : EdgeWordsInverse s e2w) (hd : allTracesDefined s t e2w = true) :
+    (ht : t.InvConsistent) (he : EdgeWordsOk s t e2w) (hd : allTracesDefined s t e2w = true) :
     SheetCompat s.dset t.len (sheetMap t e2w) := by
   have key : ∀ k i d, k < t.len → i ≤ s.dim → 1 ≤ d → d ≤ s.size →
       ∃ r, t.traceWord k (wordOf e2w d i) = .ok r ∧ sheetMap t e2w k i d = r := by
@@ -143,8 +144,13 @@ theorem sheetMap_compat (s : DSymData) (hs : ValidSet s.dset) (t : Table) (e2w :
     have ho := hs.range i d hi h1 h2
     obtain ⟨r', hr', hm'⟩ := key r i (s.dset.opU i d) hrl hi ho.1 ho.2
     rw [hm, hm']
-    rw [he i d hi h1 h2, hinv] at hr'
-    cases hr'; rfl
+    rcases he i d hi h1 h2 with hw | ⟨hloop, htw⟩
+    · rw [hw, hinv] at hr'
+      cases hr'; rfl
+    · rw [hloop] at hr'
+      have := htw k hk
+      rw [Table.traceWord_append_ok hr, hr'] at this
+      cases this; rfl
 
 theorem coverForTable_eq_cover {s : DSymData} {t : Table} {e2w : EdgeWords}
     (hd : allTracesDefined s t e2w = true) :
